@@ -50,6 +50,9 @@ def build(v):
         for a in t['attributes']:
             if kind == 'allattrs' or a['member'] == v['which']:
                 setattr(inst, a['member'], attr_value(a))
+    if kind == 'optattrs_empty':
+        for a in t['attributes']:
+            setattr(inst, a['member'], attr_value(a) if a['required'] else '')
     if kind in ('child', 'allchildren'):
         for ch in t['children']:
             if ch['cls'] not in table():
@@ -151,7 +154,7 @@ def main():
     if chk.tier != 'thorough':
         keep = []
         for c in cases:
-            if c['v']['kind'] in ('empty', 'allattrs', 'allchildren', 'foreign_child', 'foreign_attr', 'ownns_attr', 'ownns_attr_both', 'text_layout') or not c['roundTrips'] \
+            if c['v']['kind'] in ('empty', 'allattrs', 'allchildren', 'foreign_child', 'foreign_attr', 'ownns_attr', 'ownns_attr_both', 'text_layout', 'optattrs_empty') or not c['roundTrips'] \
                     or chk.rng.random() < 0.35:
                 keep.append(c)
         cases = keep
@@ -183,9 +186,9 @@ def main():
                     chk.note('drift: %s %s round-trips in the code but not in the abstract model' % (v['cls'], v['kind']))
                 chk.sample({'variant': v, 'serialised': out.get('text', '')[:200]}, limit=4)
     chk.cov['exhaustive'] = chk.tier == 'thorough'
-    chk.cov['rule'] = ('variants of Schema.tla for each of the exported classes (nothing set, each attribute, all attributes, each child '
+    chk.cov['rule'] = ('variants of Schema.tla for each of the exported classes (nothing set, each attribute, all attributes, all optional attributes empty, each child '
                       'with 1..3 instances, all children, foreign child, foreign attribute, own-namespace look-alike of a declared attribute, XML-special, non-ASCII and multi-line / padded text): thorough '
-                      'all 14 634, quick the structural kinds plus a seeded third of the rest; distinct = distinct (class, variant)')
+                      'all 15 788, quick the structural kinds plus a seeded third of the rest; distinct = distinct (class, variant)')
     chk.cov['classes'] = len(table())
     chk.assumptions = ['depth-1 instances (children are empty instances of their class); deeper nesting is reached through the same '
                        'generic code path', 'text content restricted to two classes of strings per class']
